@@ -166,6 +166,22 @@ func checkLib(c *LibCase) error {
 	if _, _, ok := crypt.Authenticate(d, id0, []byte("certainly-wrong-pw")); ok && p.UserPW != "" {
 		return fmt.Errorf("independent handler accepts a wrong password")
 	}
+	if p.UserPW != "" {
+		// Neither password is empty (a missing owner password is replaced by
+		// the user password, Algorithm 3 step (a)), so the empty password
+		// must open nothing, neither as user nor as owner.
+		if _, isOwner, ok := crypt.Authenticate(d, id0, nil); ok {
+			return fmt.Errorf("independent handler (V=%d R=%d): the empty password authenticates (as owner: %v) although the user password is %q and the owner password %q",
+				d.V, d.R, isOwner, p.UserPW, p.OwnerPW)
+		}
+		if p.OwnerPW == "" {
+			// ... and the user password is the owner password
+			// (Authenticate tries the owner password first)
+			if _, isOwner, ok := crypt.Authenticate(d, id0, []byte(p.UserPW)); !ok || !isOwner {
+				return fmt.Errorf("independent handler (V=%d R=%d): no owner password was given, but the user password %q does not authenticate as owner (Algorithm 3 step (a))", d.V, d.R, p.UserPW)
+			}
+		}
+	}
 	if d.R >= 5 {
 		if err := crypt.ValidatePerms(d, fileKey); err != nil {
 			return fmt.Errorf("/Perms does not validate (Algorithm 13): %v", err)
@@ -358,7 +374,7 @@ var libProp = &vt.Prop[LibCase]{
 	Property: property,
 	Kind:     "c10-lib-writes",
 	Gen: func(t *rapid.T) LibCase {
-		p := wprog.Gen(wprog.Opts{MaxActions: 10, MaxData: 5000}).Draw(t, "prog")
+		p := wprog.Gen(wprog.Opts{MaxActions: 10, MaxData: 5000, AllowBulk: true}).Draw(t, "prog")
 		if !p.Encrypted() {
 			if p.Version == 0 {
 				p.Version = rapid.IntRange(1, 8).Draw(t, "version2")
@@ -422,6 +438,9 @@ var libProp = &vt.Prop[LibCase]{
 		}
 		if c.nIV >= 2 {
 			cls = append(cls, "aes-ivs>=2")
+			if c.nIV > 256 {
+				cls = append(cls, "aes-ivs>256")
+			}
 		}
 		return c.nShared >= 2 || c.highNumber || c.genNonZero, cls
 	},
